@@ -129,7 +129,7 @@ def judge(ctx, sess, proc, rng, ninputs, emit=True):
 
 def plan(tier, seed):
     quick = tier == "quick"
-    return {"nshards": 16, "params": {"soft_s": 80 if quick else 900, "ninputs": 4 if quick else 10}, "hard_timeout_s": 400 if quick else 3000}
+    return {"nshards": 16, "params": {"soft_s": 300 if quick else 1200, "nprograms": 40 if quick else 450, "ninputs": 4 if quick else 10}, "hard_timeout_s": 700 if quick else 3400}
 
 
 def shard(ctx):
@@ -145,7 +145,8 @@ def shard(ctx):
 
     signal.signal(signal.SIGALRM, on_alarm)
     nprog = 0
-    while not ctx.out_of_time():
+    cap = int(ctx.params.get("nprograms", 10**9))
+    while nprog < cap and not ctx.out_of_time():
         nprog += 1
         rng = random.Random((ctx.seed * 1000003 + ctx.shard * 7919 + nprog * 104729) & 0xFFFFFFFF)
         ctx.rng = rng
@@ -198,7 +199,7 @@ def one(ctx, rng):
 def finish(agg, tier):
     st = agg.stats
     inc = []
-    if st.get("par.compile_accepted", 0) < (100 if tier == "quick" else 1000):
+    if st.get("par.compile_accepted", 0) < (60 if tier == "quick" else 600):
         inc.append(f"only {st.get('par.compile_accepted', 0)} procedures with par loops compiled")
     if len(agg.distinct_nt) < 30:
         inc.append("fewer than 30 procedures with a multi-iteration par loop observed")
